@@ -33,6 +33,7 @@
 \*===========================================================================*/
 
 #include <set>
+#include <utility>
 
 #include <OpenVolumeMesh/Mesh/TetrahedralMeshTopologyKernel.hh>
 
@@ -102,9 +103,19 @@ TetrahedralMeshTopologyKernel::add_cell(std::vector<HalfFaceHandle> _halffaces, 
                 vertices.insert(TopologyKernel::halfedge(heh).to_vertex());
             }
         }
-        if(vertices.size() != 4) {
+        // ... and no two of its halfedges run between the same ordered pair of vertices (two triangle
+        // pairs joined through a parallel duplicate edge span four vertices, too)
+        std::set<std::pair<VertexHandle, VertexHandle>> directed;
+        bool parallel = false;
+        for(const auto &hfh: _halffaces) {
+            for(const auto &heh: TopologyKernel::halfface(hfh).halfedges()) {
+                const auto e = TopologyKernel::halfedge(heh);
+                if(!directed.insert({e.from_vertex(), e.to_vertex()}).second) parallel = true;
+            }
+        }
+        if(vertices.size() != 4 || parallel) {
 #ifndef NDEBUG
-            std::cerr << "TetrahedralMeshTopologyKernel::add_cell(): The halffaces span " << vertices.size() << " vertices instead of four; not adding cell." << std::endl;
+            std::cerr << "TetrahedralMeshTopologyKernel::add_cell(): The halffaces span " << vertices.size() << " vertices instead of four, or use a pair of vertices twice in the same direction; not adding cell." << std::endl;
 #endif
             return TopologyKernel::InvalidCellHandle;
         }
